@@ -2,6 +2,8 @@ package volsim
 
 import (
 	"errors"
+	"sync"
+	"sync/atomic"
 	"syscall"
 	"time"
 
@@ -17,6 +19,28 @@ type FaultFile struct {
 	NextSync  bool
 	NextTrunc bool
 	Fired     func(kind string)
+
+	// a slow disk: the next GetStat parks its caller (wherever in the SUT that is, with whatever locks it
+	// holds) until the channel is closed
+	parkMu sync.Mutex
+	park   chan struct{}
+	Parked int32 // 1 while a caller is parked
+}
+
+// ParkNextStat arms the stall and returns the function that ends it.
+func (f *FaultFile) ParkNextStat() (release func()) {
+	ch := make(chan struct{})
+	f.parkMu.Lock()
+	f.park = ch
+	f.parkMu.Unlock()
+	return func() {
+		f.parkMu.Lock()
+		if f.park == ch {
+			f.park = nil // nobody came
+		}
+		f.parkMu.Unlock()
+		close(ch)
+	}
 }
 
 var errEIO = errors.New("input/output error")
@@ -60,9 +84,24 @@ func (f *FaultFile) Truncate(off int64) error {
 	return f.Inner.Truncate(off)
 }
 
-func (f *FaultFile) Close() error                       { return f.Inner.Close() }
-func (f *FaultFile) GetStat() (int64, time.Time, error) { return f.Inner.GetStat() }
-func (f *FaultFile) Name() string                       { return f.Inner.Name() }
+func (f *FaultFile) Close() error { return f.Inner.Close() }
+func (f *FaultFile) GetStat() (int64, time.Time, error) {
+	f.parkMu.Lock()
+	ch := f.park
+	f.park = nil
+	f.parkMu.Unlock()
+	if ch != nil {
+		// the answer is computed, then the caller is held up before it gets it: whoever relies on the value
+		// must hold the lock that keeps it true
+		size, mt, err := f.Inner.GetStat()
+		atomic.StoreInt32(&f.Parked, 1)
+		<-ch
+		atomic.StoreInt32(&f.Parked, 0)
+		return size, mt, err
+	}
+	return f.Inner.GetStat()
+}
+func (f *FaultFile) Name() string { return f.Inner.Name() }
 func (f *FaultFile) Sync() error {
 	if f.NextSync {
 		f.NextSync = false
